@@ -18,7 +18,7 @@ package core
 //@   props C14
 //@   requires EngineGlobal != nil
 //@   assume at call IndexByte#0 :: value_unfold(msg, 0) && value_ok(msg, 0) && value_end(msg, 0) == len(msg)
-//@   assume at call updateClusterNodes#0 :: msg[0] == '$' && dec(hdr_slice(msg, 0), len(hdr_slice(msg, 0))) >= 1
+//@   assume at call IndexByte#1 :: msg[0] == '$' && dec(hdr_slice(msg, 0), len(hdr_slice(msg, 0))) >= 1
 //@   ensures[forever] false
 //@   loop 0
 //@     invariant EngineGlobal != nil
